@@ -864,6 +864,11 @@ Varable failures: {var_failed}
         see PseudoNetCDFFile.applyAlongDimensions
         """
         outf = PseudoNetCDFFile.applyAlongDimensions(self, *args, **kwds)
+        if isinstance(kwds.get('TSTEP', None), str) and \
+                'TFLAG' in outf.variables:
+            # YYYYJJJ and HHMMSS are not quantities: TFLAG reduced by a named
+            # reducer is meaningless, so it is rebuilt by updatemeta below
+            del outf.variables['TFLAG']
         if 'LAY' in kwds:
             nlays = len(self.dimensions['LAY'])
             layf = PseudoNetCDFFile()
